@@ -2,14 +2,33 @@
 //
 //   obj sphere <n> | quad <n> <A n*n> <b n> | rosen <n> | plateau <n>      (plateau = floor(4*|x|^2)/4: ties)
 //   box <l n> <u n>   |   softbox <l n> <u n>   (feasibility predicate + closestFeasible without the constraint feature flag)
+//   scale <c>         the objective is multiplied by c (a power of two: exact, order preserving) -- value classes far from 1
 //   opt <kind> [<lambda> <mu> <recomb 0|1|2> <sigma>]   kind = cma | cmsa | ecma | vdcma | lmcma | cem | simplex
 //        lambda 0 = the class' default population sizes; sigma 0 = default initial step size (cem: variance)
-//   run <seed> <steps> <target> <x0 n>   init + steps, 7 runs: fresh, fresh again, RE-INITIALISED used object, 3 exact
-//        rescalings of f, (all with the same seed); prints the final solution, a digest and the oracle verdicts
-//   coeffs <kind> <n> <lambda> <mu> <recomb>   strategy constants of the initialised object (compared bit for bit with the
+//        followed by any number of key=value options -- the configuration axes of the public interface:
+//          rng=private     the optimizer is constructed with its OWN generator (cma, cmsa, ecma, vdcma, lmcma); every run of the
+//                          case seeds that generator identically while random::globalRng is in a DIFFERENT state in every run
+//                          (default rng=global: the process-global generator, seeded identically before every run)
+//          init=point|full|propose|points   init(f,p) | the long overload init(f,p,lambda,mu,sigma[,C0]) / (f,p,pop,sel,variance) |
+//                          init(f) with f.proposeStartingPoint() | init(f, {p, p+1})
+//          set=both|lambda|mu   which of setLambda / setMu are called (cma, cmsa; default both when lambda > 0)
+//          cov0=diag|dense|scaled   initial covariance matrix handed to the long overload (cma, cmsa)
+//          lb=<x>          CMA::setLowerBound after init
+//          active=0|1      ElitistCMA::activeUpdate();   penalty=<x>   ElitistCMA::constrainedPenaltyFactor()
+//          sig=post        vdcma: VDCMA::setSigma after init instead of setInitialSigma before
+//          plambda=<k>     vdcma: lambda() = k after init;   ppop=<k> psel=<k>   cem: populationSize() / selectionSize() after init
+//          var=scalar|vec  cem: setVariance(double) | a non-uniform variance vector (long overload / setVariance(vector))
+//          noise=const:<c> | lin:<a>:<b>   cem: setNoiseType(ConstantNoise | LinearNoise)
+//          mid=<k>:<action>   a setter called in the MIDDLE of every run of the case, before step k (run ops only):
+//                          active:<0|1> (ecma) | sigma:<x> (ecma sigma(), vdcma setSigma) | lb:<x> (cma setLowerBound) |
+//                          var:<x> (cem setVariance) | pop:<l>:<m> (cem populationSize/selectionSize; vdcma lambda() = l)
+//   run <seed> <steps> <target> <x0 n>   init + steps, 8 runs: fresh, fresh again, RE-INITIALISED used object, an object
+//        that was used on a DIFFERENT problem (other dimension, start, seed) and then initialised, 3 exact
+//        rescalings of f and f scaled by 2^340 (all with the same seed); prints the final solution, a digest and the oracle verdicts
+//   coeffs <kind> <n> <lambda> <mu> <recomb> [key=value ...]   strategy constants of the initialised object (compared bit for bit with the
 //        formulas regenerated from the C++, Gen/CMAParams.lean) + admissibility oracle
 //   cmatrace <seed> <steps> <x0 n>   CMA run printing, per step, everything updatePopulation consumed and produced
-//   ecmatrace | cmsatrace | cemtrace <seed> <steps> <x0 n>   same for ElitistCMA::step, CMSA::updatePopulation, CrossEntropyMethod
+//   ecmatrace | cmsatrace | cemtrace | vdcmatrace <seed> <steps> <x0 n>   same for ElitistCMA::step, CMSA::updatePopulation, CrossEntropyMethod, VDCMA::updateStrategyParameters
 //   simplexrun <steps> <x0 n>        the whole SimplexDownhill run (deterministic), re-computed by the model from x0
 //
 // numbers are IEEE-754 bit patterns "x<16 hex digits>".
@@ -50,6 +69,7 @@ namespace shark{ using random::gauss; }
 #undef protected
 #include <shark/ObjectiveFunctions/BoxConstraintHandler.h>
 #include "common.hpp"
+#include <boost/optional.hpp>
 #include <cstring>
 #include <memory>
 
@@ -99,8 +119,12 @@ struct Obj: public SingleObjectiveFunction{
 	bool soft;  // "soft box": isFeasible/closestFeasible are overridden but the function does not declare
 	            // IS_CONSTRAINED_FEATURE (CMA, CMSA, ElitistCMA refuse declared constraints in checkFeatures although
 	            // their PenalizingEvaluator handles infeasible points) -- this reaches the closest-feasible clause of C11
-	int phi;   // 0 identity, 1: 2v, 2: v/8, 3: v>=0 ? 4v : 2v   (all exact and strictly increasing)
-	Obj(): kind(0), n(0), boxed(false), soft(false), phi(0){ m_features |= HAS_VALUE; m_constraintHandler = nullptr; }
+	int phi;   // 0 identity, 1: 2v, 2: v/8, 3: v>=0 ? 4v : 2v, 4: 2^340 v (values beyond 1e100)   (all exact and strictly increasing)
+	RealVector start;   // returned by proposeStartingPoint (init(f) overload)
+	double scale;       // exact positive factor on the objective value
+	Obj(): kind(0), n(0), boxed(false), soft(false), phi(0), scale(1.0){ m_features |= HAS_VALUE; m_constraintHandler = nullptr; }
+	void proposes(RealVector const& x0){ start = x0; m_features |= CAN_PROPOSE_STARTING_POINT; }
+	RealVector proposeStartingPoint() const{ return start; }
 	std::string name() const{ return "verif-objective"; }
 	std::size_t numberOfVariables() const{ return n; }
 	void setBox(RealVector const& l, RealVector const& u){ handler.setBounds(l, u); announceConstraintHandler(&handler); boxed = true; }
@@ -108,7 +132,8 @@ struct Obj: public SingleObjectiveFunction{
 	bool isFeasible(RealVector const& x) const{ return soft ? handler.isFeasible(x) : SingleObjectiveFunction::isFeasible(x); }
 	void closestFeasible(RealVector& x) const{ if(soft) handler.closestFeasible(x); else SingleObjectiveFunction::closestFeasible(x); }
 	// plain scalar loops: the Lean driver evaluates the same expressions at Float (simplexrun)
-	double raw(RealVector const& x) const{
+	double raw(RealVector const& x) const{ return scale * raw1(x); }
+	double raw1(RealVector const& x) const{
 		double v = 0.0;
 		if(kind == 2 || kind == 3){
 			for(std::size_t i = 0; i != n; ++i) v = v + x(i) * x(i);
@@ -131,7 +156,7 @@ struct Obj: public SingleObjectiveFunction{
 	double eval(RealVector const& x) const{
 		++m_evaluationCounter;
 		double v = raw(x);
-		switch(phi){ case 1: return 2.0 * v; case 2: return v * 0.125; case 3: return v >= 0 ? 4.0 * v : 2.0 * v; default: return v; }
+		switch(phi){ case 1: return 2.0 * v; case 2: return v * 0.125; case 3: return v >= 0 ? 4.0 * v : 2.0 * v; case 4: return std::ldexp(v, 340); default: return v; }
 	}
 	// the property's reference value: objective at the closest feasible point
 	double reference(RealVector const& p) const{
@@ -142,7 +167,16 @@ struct Obj: public SingleObjectiveFunction{
 };
 
 struct Config{
-	std::string kind; std::vector<double> p;
+	std::string kind; std::vector<double> p; std::map<std::string, std::string> o;
+	bool has(std::string const& k) const{ return o.count(k) != 0; }
+	std::string opt(std::string const& k, std::string const& d = "") const{ auto it = o.find(k); return it == o.end() ? d : it->second; }
+	static double number(std::string const& t){ return (t.size() == 17 && t[0] == 'x') ? bits2d(t) : std::stod(t); }
+	double num(std::string const& k, double d = 0.0) const{ return has(k) ? number(opt(k)) : d; }
+	// a private generator exists only for the classes whose constructor takes one
+	bool priv() const{ return opt("rng") == "private" && kind != "cem" && kind != "simplex"; }
+	std::string initMode() const{ return opt("init", "point"); }
+	bool setsLambda() const{ return lambda() && opt("set", "both") != "mu"; }
+	bool setsMu() const{ return p.size() >= 4 && p[1] > 0 && (opt("set", "both") == "mu" || (lambda() && opt("set", "both") == "both")); }
 	std::size_t lambda() const{ return p.size() >= 4 && p[0] > 0 ? (std::size_t)p[0] : 0; }
 	std::size_t mu() const{ return p.size() >= 4 ? (std::size_t)p[1] : 0; }
 	int recomb() const{ return p.size() >= 4 ? (int)p[2] : 2; }
@@ -153,20 +187,34 @@ typedef AbstractSingleObjectiveOptimizer<RealVector> OptBase;
 struct Trace{
 	std::vector<RealVector> pts; std::vector<double> vals, sig;
 	std::string bad;   // first oracle failure
+	std::size_t pdUndecided;   // steps at which the covariance was numerically singular (pivot within rounding of zero)
+	Trace(): pdUndecided(0){}
 };
 
 static void fail(Trace& t, std::string const& w){ if(t.bad.empty()) t.bad = w; }
 
-// independent Cholesky factorisation (positive definiteness of a symmetric matrix)
-template<class M> static bool cholesky(M const& C){
+// independent Cholesky factorisation (positive definiteness of a symmetric matrix).  Returns 1: positive definite,
+// 0: CERTIFIABLY not positive definite (a pivot below -tol or not finite), 2: numerically singular -- a pivot within the
+// rounding error of the factorisation (|pivot| <= 64 n eps C_ii) of zero, which floating point cannot decide (condition
+// number beyond ~1e13: e.g. CMA-ES that keeps running after it has converged to the last bit of x)
+static double g_lastPivot = 0, g_lastDiag = 0;
+template<class M> static int cholesky(M const& C){
 	std::size_t n = C.size1(); std::vector<double> L(n*n, 0.0);
 	for(std::size_t i = 0; i != n; ++i) for(std::size_t j = 0; j <= i; ++j){
 		double s = C(i,j);
 		for(std::size_t k = 0; k != j; ++k) s -= L[i*n+k] * L[j*n+k];
-		if(i == j){ if(!(s > 0) || !std::isfinite(s)) return false; L[i*n+i] = std::sqrt(s); }
+		if(i == j){
+			if(!std::isfinite(s)){ g_lastPivot = s; g_lastDiag = C(i,i); return 0; }
+			if(!(s > 0)){
+				g_lastPivot = s; g_lastDiag = C(i,i);
+				double tol = 64.0 * n * 2.220446049250313e-16 * std::fabs(C(i,i));
+				return (s < -tol || !(C(i,i) > 0)) ? 0 : 2;
+			}
+			L[i*n+i] = std::sqrt(s);
+		}
 		else L[i*n+j] = s / L[j*n+j];
 	}
-	return true;
+	return 1;
 }
 // a lower Cholesky factor kept by the algorithm: finite, positive diagonal (=> L L^T is symmetric positive definite)
 template<class M> static bool validFactor(M const& L){
@@ -177,47 +225,152 @@ template<class M> static bool validFactor(M const& L){
 	return true;
 }
 
-static OptBase* make(Config const& c){
-	if(c.kind == "cma") return new CMA(random::globalRng);
-	if(c.kind == "cmsa") return new CMSA(random::globalRng);
-	if(c.kind == "ecma") return new ElitistCMA(random::globalRng);
-	if(c.kind == "vdcma") return new VDCMA(random::globalRng);
-	if(c.kind == "lmcma") return new LMCMA(random::globalRng);
-	if(c.kind == "cem") return new CrossEntropyMethod();
-	if(c.kind == "simplex") return new SimplexDownhill();
+// every optimizer object is constructed in storage pre-filled with a byte pattern that differs from run to run: a member
+// that neither the constructor nor init sets has a different (garbage) value in each run, so that reading it shows up as a
+// difference between two runs with the same seed (or as a UBSan report for a bool / enum)
+template<class T> static OptBase* constructIn(unsigned char pattern, random::rng_type& rng){
+	void* mem = ::operator new(sizeof(T)); std::memset(mem, pattern, sizeof(T)); return new(mem) T(rng);
+}
+template<class T> static OptBase* constructIn(unsigned char pattern){
+	void* mem = ::operator new(sizeof(T)); std::memset(mem, pattern, sizeof(T)); return new(mem) T();
+}
+static OptBase* make(Config const& c, random::rng_type& rng, unsigned char pattern){
+	if(c.kind == "cma") return constructIn<CMA>(pattern, rng);
+	if(c.kind == "cmsa") return constructIn<CMSA>(pattern, rng);
+	if(c.kind == "ecma") return constructIn<ElitistCMA>(pattern, rng);
+	if(c.kind == "vdcma") return constructIn<VDCMA>(pattern, rng);
+	if(c.kind == "lmcma") return constructIn<LMCMA>(pattern, rng);
+	if(c.kind == "cem") return constructIn<CrossEntropyMethod>(pattern);
+	if(c.kind == "simplex") return constructIn<SimplexDownhill>(pattern);
 	throw std::runtime_error("unknown optimizer " + c.kind);
 }
 
-// configure + init through the public interface of each class (user-set population sizes, recombination type, step size)
-static void initOpt(Config const& c, OptBase& o, Obj& f, RealVector const& x0){
+// an optimizer together with the generator it was constructed with: the process-global one (default construction mode of
+// every class) or its own (rng=private)
+struct Holder{
+	random::rng_type rng;
+	std::unique_ptr<OptBase> o;
+	bool priv;
+	explicit Holder(Config const& c, unsigned char pattern = 0): rng(12345u), priv(c.priv()){ o.reset(make(c, priv ? rng : random::globalRng, pattern)); }
+	Holder(Holder const&) = delete;
+	Holder& operator=(Holder const&) = delete;
+};
+// same seed for the generator the optimizer draws from.  With a private generator the global one is put into a state that
+// differs from run to run (`variant`): a run must not depend on it.  Without, the global one IS the optimizer's generator.
+static void seedRun(Holder& h, unsigned seed, unsigned variant){
+	if(h.priv){
+		h.rng.seed(seed);
+		random::globalRng.seed(seed * 2654435761u + 977u * variant + 1u);
+		random::globalRng.discard(variant);
+	}else random::globalRng.seed(seed);
+}
+
+// an initial covariance matrix for the long init overloads: exactly representable, symmetric positive definite
+static RealMatrix cov0(std::string const& tag, std::size_t n){
+	RealMatrix C(n, n, 0.0);
+	for(std::size_t i = 0; i != n; ++i) C(i,i) = 1.0;
+	if(tag == "diag") for(std::size_t i = 0; i != n; ++i) C(i,i) = (i % 3 == 0) ? 0.5 : ((i % 3 == 1) ? 1.0 : 4.0);
+	else if(tag == "scaled") for(std::size_t i = 0; i != n; ++i) C(i,i) = 4.0;
+	else if(tag == "dense"){
+		RealVector u(n);
+		for(std::size_t i = 0; i != n; ++i) u(i) = (double((i * 7 + 3) % 5) - 2.0) * 0.25;
+		for(std::size_t i = 0; i != n; ++i) for(std::size_t j = 0; j != n; ++j) C(i,j) += u(i) * u(j);
+	}
+	return C;
+}
+
+// the three short ways to start: init(f,p), init(f) with a proposed starting point, init(f, points)
+template<class Fn> static void callInit(OptBase& o, Fn& f, RealVector const& x0, std::string const& mode){
+	if(mode == "propose"){ f.proposes(x0); o.init(f); }
+	else if(mode == "points"){
+		std::vector<RealVector> pts(2, x0);
+		for(std::size_t i = 0; i != x0.size(); ++i) pts[1](i) += 1.0;
+		o.init(f, pts);
+	}
+	else o.init(f, x0);
+}
+
+// configure + init through the public interface of each class (construction mode, user-set population sizes, recombination
+// type, step size, every init overload, the setters that act after init)
+template<class Fn> static void initOpt(Config const& c, OptBase& o, Fn& f, RealVector const& x0){
 	std::size_t n = x0.size();
+	std::string mode = c.initMode();
+	boost::optional<RealMatrix> C0;
+	if(c.has("cov0")) C0 = cov0(c.opt("cov0"), n);
 	if(c.kind == "cma"){
 		CMA& m = static_cast<CMA&>(o);
-		if(c.lambda()){ m.setLambda(c.lambda()); m.setMu(c.mu()); }
-		if(c.p.size() >= 4){ m.recombinationType() = (CMA::RecombinationType)c.recomb(); if(c.sigma() > 0) m.setInitialSigma(c.sigma()); }
-		m.init(f, x0);
+		if(c.p.size() >= 4) m.recombinationType() = (CMA::RecombinationType)c.recomb();
+		if(mode == "full"){
+			std::size_t lambda = c.lambda() ? c.lambda() : CMA::suggestLambda(n);
+			std::size_t mu = c.mu() ? c.mu() : CMA::suggestMu(lambda, m.recombinationType());
+			m.init(f, x0, lambda, mu, c.sigma() > 0 ? c.sigma() : 1.0 / std::sqrt((double)n), C0);
+		}else{
+			if(c.setsLambda()) m.setLambda(c.lambda());
+			if(c.setsMu()) m.setMu(c.mu());
+			if(c.p.size() >= 4 && c.sigma() > 0) m.setInitialSigma(c.sigma());
+			callInit(m, f, x0, mode);
+		}
+		if(c.has("lb")) m.setLowerBound(c.num("lb"));
 	}else if(c.kind == "cmsa"){
 		CMSA& m = static_cast<CMSA&>(o);
-		if(c.lambda()){ m.setLambda(c.lambda()); m.setMu(c.mu()); }
-		if(c.sigma() > 0) m.setInitialSigma(c.sigma());
-		m.init(f, x0);
+		if(mode == "full"){
+			std::size_t lambda = c.lambda() ? c.lambda() : 4 * n;
+			std::size_t mu = (c.mu() && c.mu() < lambda) ? c.mu() : lambda / 4;
+			m.init(f, x0, lambda, mu, c.sigma() > 0 ? c.sigma() : 1.0 / std::sqrt((double)n), C0);
+		}else{
+			if(c.setsLambda()) m.setLambda(c.lambda());
+			if(c.setsMu()) m.setMu(c.mu());
+			if(c.sigma() > 0) m.setInitialSigma(c.sigma());
+			callInit(m, f, x0, mode);
+		}
 	}else if(c.kind == "vdcma"){
 		VDCMA& m = static_cast<VDCMA&>(o);
-		if(c.lambda()) m.init(f, x0, c.lambda(), c.mu(), c.sigma() > 0 ? c.sigma() : 1.0 / std::sqrt((double)n));
-		else{ m.setInitialSigma(c.sigma()); m.init(f, x0); }
+		bool post = c.opt("sig") == "post";
+		if(mode == "full" || c.lambda()){
+			std::size_t lambda = c.lambda() ? c.lambda() : m.suggestLambda(n);
+			std::size_t mu = c.lambda() ? c.mu() : m.suggestMu(lambda);
+			m.init(f, x0, lambda, mu, (c.sigma() > 0 && !post) ? c.sigma() : 1.0 / std::sqrt((double)n));
+		}else{
+			m.setInitialSigma(post ? 0.0 : c.sigma());
+			callInit(m, f, x0, mode);
+		}
+		if(post && c.sigma() > 0) m.setSigma(c.sigma());
+		if(c.has("plambda")) m.lambda() = (std::size_t)c.num("plambda");
 	}else if(c.kind == "lmcma"){
 		LMCMA& m = static_cast<LMCMA&>(o);
 		if(c.lambda()) m.init(f, x0, (unsigned)c.lambda(), (double)c.mu(), c.sigma() > 0 ? c.sigma() : 1.0 / std::sqrt((double)n));
 		else m.init(f, x0);
 	}else if(c.kind == "cem"){
 		CrossEntropyMethod& m = static_cast<CrossEntropyMethod&>(o);
-		if(c.lambda()) m.init(f, x0, (unsigned)c.lambda(), (unsigned)c.mu(), RealVector(n, c.sigma() > 0 ? c.sigma() : 100.0));
-		else{ m.init(f, x0); if(c.sigma() > 0) m.setVariance(c.sigma()); }
+		double base = c.sigma() > 0 ? c.sigma() : 100.0;
+		RealVector var(n, base);
+		if(c.opt("var") == "vec") for(std::size_t j = 0; j != n; ++j) var(j) = base * ((j % 3 == 0) ? 1.0 : ((j % 3 == 1) ? 0.25 : 2.0));
+		if(c.has("noise")){
+			std::vector<std::string> q; std::string cur; std::string nz = c.opt("noise");
+			for(char ch: nz){ if(ch == ':'){ q.push_back(cur); cur.clear(); } else cur += ch; }
+			q.push_back(cur);
+			if(q.at(0) == "const") m.setNoiseType(new CrossEntropyMethod::ConstantNoise(Config::number(q.at(1))));
+			else if(q.at(0) == "lin") m.setNoiseType(new CrossEntropyMethod::LinearNoise(Config::number(q.at(1)), Config::number(q.at(2))));
+			else throw std::runtime_error("bad-op");
+		}
+		if(mode == "full" || c.lambda()){
+			unsigned pop = c.lambda() ? (unsigned)c.lambda() : CrossEntropyMethod::suggestPopulationSize();
+			unsigned sel = c.lambda() ? (unsigned)c.mu() : CrossEntropyMethod::suggestSelectionSize(pop);
+			m.init(f, x0, pop, sel, var);
+		}else{
+			callInit(m, f, x0, mode);
+			if(c.opt("var") == "vec") m.setVariance(var);
+			else if(c.sigma() > 0 || c.opt("var") == "scalar") m.setVariance(base);
+		}
+		if(c.has("ppop")) m.populationSize() = (unsigned)c.num("ppop");
+		if(c.has("psel")) m.selectionSize() = (unsigned)c.num("psel");
 	}else if(c.kind == "ecma"){
 		ElitistCMA& m = static_cast<ElitistCMA&>(o);
-		m.init(f, x0);
+		if(c.has("active")) m.activeUpdate() = c.num("active") != 0;
+		if(c.has("penalty")) m.constrainedPenaltyFactor() = c.num("penalty");
+		callInit(m, f, x0, mode);
 		if(c.sigma() > 0) m.sigma() = c.sigma();
-	}else o.init(f, x0);
+	}else callInit(o, f, x0, mode);
 }
 
 // validity of the search distribution of the concrete classes; returns the step size
@@ -225,20 +378,33 @@ static double checkState(Config const& c, OptBase& o, Trace& t){
 	if(c.kind == "cma"){
 		CMA& m = static_cast<CMA&>(o);
 		RealMatrix const& C = m.covarianceMatrix();
+		// positive definiteness is decided on the symmetric part (C + C^T)/2, so that it does not depend on the asymmetry of
+		// the stored matrix (finding F13), and first: a matrix that is both indefinite and asymmetric is reported as indefinite
+		RealMatrix S(C.size1(), C.size2());
+		for(std::size_t i = 0; i != C.size1(); ++i){
+			for(std::size_t j = 0; j != C.size2(); ++j) S(i,j) = 0.5 * (C(i,j) + C(j,i));
+		}
+		int pd = cholesky(S);
+		if(pd == 0){
+			std::ostringstream os; os << "covariance-not-positive-definite pivot=" << g_lastPivot << " of-diagonal-entry=" << g_lastDiag << " step=" << t.pts.size();
+			fail(t, os.str());
+		}
+		if(pd == 2) ++t.pdUndecided;
 		for(std::size_t i = 0; i != C.size1(); ++i) for(std::size_t j = 0; j != i; ++j)
 			if(!sameBits(C(i,j), C(j,i))){
 				// the two triangles are not computed by bit-symmetric operations (remora evaluates w*outer_prod(a,b)
 				// as outer_prod(w*a,b)); the asymmetry is never corrected and drifts: relative differences above 1e-12
 				// were observed after ~100 generations: the absolute asymmetry stays around 1e-19..1e-21 while C itself
 				// shrinks by 12 orders of magnitude (see findings_proposed/C11.md).  Tolerance: 1e-9 of sqrt(C_ii C_jj)
-				// plus 1e-16 absolute (the initial covariance is the identity).
+				// plus 1e-16 absolute (the initial covariance is the identity).  NB: the absolute term makes this check
+				// vacuous once C has shrunk far below 1e-7: a relative asymmetry of 3e-2 at |C| ~ 1e-30 was observed (CMA,
+				// lambda=40, mu=39, 3-d Rosenbrock, step 132, long after convergence to the last bit) -- the same drift, F13.
 				double sc = std::sqrt(std::fabs(C(i,i)) * std::fabs(C(j,j)));
 				if(!(std::fabs(C(i,j) - C(j,i)) <= 1e-9 * sc + 1e-16)){
 					std::ostringstream os; os << "covariance-not-symmetric Cij=" << C(i,j) << " Cji=" << C(j,i) << " Cii=" << C(i,i) << " Cjj=" << C(j,j) << " step=" << t.pts.size();
 					fail(t, os.str());
 				}
 			}
-		if(!cholesky(C)) fail(t, "covariance-not-positive-definite");
 		if(!finiteVec(m.mean()) || !finiteVec(m.evolutionPath()) || !finiteVec(m.evolutionPathSigma())) fail(t, "mean-or-path-non-finite");
 		// weights: positive, non-increasing in the rank, sum 1; learning rates in their admissible ranges
 		RealVector const& w = m.weights(); double sw = 0; bool ok = w.size() == m.mu();
@@ -296,19 +462,49 @@ static double checkState(Config const& c, OptBase& o, Trace& t){
 	return 1.0;
 }
 
+// a setter of the public interface called between two steps
+static std::vector<std::string> splitColon(std::string const& v){
+	std::vector<std::string> q; std::string cur;
+	for(char ch: v){ if(ch == ':'){ q.push_back(cur); cur.clear(); } else cur += ch; }
+	q.push_back(cur);
+	return q;
+}
+static void applyMid(Config const& c, OptBase& o, std::vector<std::string> const& q){
+	std::string const& a = q.at(1);
+	if(a == "active" && c.kind == "ecma") static_cast<ElitistCMA&>(o).activeUpdate() = Config::number(q.at(2)) != 0;
+	else if(a == "sigma" && c.kind == "ecma") static_cast<ElitistCMA&>(o).sigma() = Config::number(q.at(2));
+	else if(a == "sigma" && c.kind == "vdcma") static_cast<VDCMA&>(o).setSigma(Config::number(q.at(2)));
+	else if(a == "lb" && c.kind == "cma") static_cast<CMA&>(o).setLowerBound(Config::number(q.at(2)));
+	else if(a == "var" && c.kind == "cem") static_cast<CrossEntropyMethod&>(o).setVariance(Config::number(q.at(2)));
+	else if(a == "pop" && c.kind == "cem"){
+		static_cast<CrossEntropyMethod&>(o).populationSize() = (unsigned)Config::number(q.at(2));
+		static_cast<CrossEntropyMethod&>(o).selectionSize() = (unsigned)Config::number(q.at(3));
+	}
+	else if(a == "pop" && c.kind == "vdcma") static_cast<VDCMA&>(o).lambda() = (std::size_t)Config::number(q.at(2));
+	else throw std::runtime_error("bad-op");
+}
+
 // init (of a fresh or of an already used object) + steps, with the per-step oracle
-static Trace runOnce(Config const& c, OptBase& o, Obj& f, int phi, unsigned seed, std::size_t steps, RealVector const& x0){
+static Trace runOnce(Config const& c, Holder& h, Obj& f, int phi, unsigned seed, unsigned variant, std::size_t steps, RealVector const& x0){
 	Trace t;
+	OptBase& o = *h.o;
 	f.phi = phi;
-	random::globalRng.seed(seed);
+	seedRun(h, seed, variant);
 	initOpt(c, o, f, x0);
+	// ElitistCMA accepts on the PENALIZED fitness and reports the unpenalized one: with a feasibility box only the accepted
+	// penalized fitness is monotone
 	bool elitist = (c.kind == "ecma" && !f.soft) || c.kind == "simplex";
+	double lastAccepted = 0;
+	std::vector<std::string> mid; std::size_t midStep = 0;
+	if(c.has("mid")){ mid = splitColon(c.opt("mid")); midStep = (std::size_t)Config::number(mid.at(0)); }
 	for(std::size_t s = 0; s <= steps; ++s){
+		if(s && s == midStep) applyMid(c, o, mid);
 		if(s) o.step(f);
 		RealVector const& p = o.solution().point; double v = o.solution().value;
 		t.pts.push_back(p); t.vals.push_back(v);
 		bool finite = std::isfinite(v) && finiteVec(p);
 		if(!finite) fail(t, "non-finite");
+		if(p.size() != f.n){ fail(t, "reported-point-has-wrong-dimension"); finite = false; }
 		if(phi == 0 && finite){
 			double ref = f.reference(p);
 			if(!sameBits(ref, v)) fail(t, "value-not-f-of-closest-feasible-point");
@@ -317,9 +513,37 @@ static Trace runOnce(Config const& c, OptBase& o, Obj& f, int phi, unsigned seed
 		t.sig.push_back(sg);
 		if(!(sg > 0) || !std::isfinite(sg)) fail(t, "step-size-not-positive");
 		if(elitist && s && !(v <= t.vals[s-1])) fail(t, "elitist-value-increased");
+		if(c.kind == "ecma" && (s == 0 || !sameVec(p, t.pts[s-1]) || !sameBits(v, t.vals[s-1]))){
+			// a new parent was accepted: its penalized fitness (what offspring are compared with; equal to the reported
+			// value when there is no feasibility box) must not be worse than that of the parent it replaced.  Observed on
+			// the individual itself, independently of the optimizer's own history window.
+			double acc = static_cast<ElitistCMA&>(o).m_individual.penalizedFitness();
+			if(s && !(acc <= lastAccepted)) fail(t, "elitist-accepted-penalized-fitness-increased");
+			lastAccepted = acc;
+		}
 	}
 	f.phi = 0;
 	return t;
+}
+
+// the object is first used on a DIFFERENT problem (other dimension -- smaller or larger --, start, seed) and its per-run
+// state is then overwritten through the setters that act on the current run only (lower bound, initial covariance, step
+// size, variance, population sizes after init): every piece of per-run state has a stale value of another shape when init
+// is called for the run proper.  Options that persist across init by design (setLambda/setMu, recombination type,
+// activeUpdate, penalty factor, noise type, initial sigma) are the same as in the run proper.
+static void preUse(Config const& c, Holder& h, std::size_t n, unsigned seed){
+	Obj g; g.kind = 2; g.n = (seed % 2 == 1) ? n + 1 : ((n == 1) ? 2 : n - 1);
+	RealVector y0(g.n, 0.75);
+	Config pc = c;
+	pc.o.erase("mid");
+	if(c.kind == "cmsa"){ pc.o["init"] = "full"; pc.o["cov0"] = "dense"; }      // CMSA's long overload sets no persistent flag
+	if(c.kind == "cma"){ pc.o["lb"] = "0.5"; if(c.initMode() == "full") pc.o["cov0"] = "dense"; }
+	seedRun(h, seed + 17u, 99u);
+	initOpt(pc, *h.o, g, y0);
+	if(c.kind == "ecma") static_cast<ElitistCMA&>(*h.o).sigma() = 8.0;
+	if(c.kind == "vdcma"){ VDCMA& m = static_cast<VDCMA&>(*h.o); m.setSigma(8.0); m.lambda() += 3; }
+	if(c.kind == "cem"){ CrossEntropyMethod& m = static_cast<CrossEntropyMethod&>(*h.o); m.setVariance(7.0); m.populationSize() += 5; }
+	for(int s = 0; s != 3; ++s) h.o->step(g);
 }
 
 static std::uint64_t digest(Trace const& t){
@@ -336,10 +560,16 @@ static void coeffsOp(std::vector<std::string> const& t, std::ostringstream& out)
 	Config c; c.kind = t.at(1);
 	std::size_t n = std::stoul(t.at(2)), lambda = std::stoul(t.at(3)), mu = std::stoul(t.at(4)); int rec = std::stoi(t.at(5));
 	c.p = {(double)lambda, (double)mu, (double)rec, 0.0};
+	// optional configuration options: the constants must not depend on the construction mode or on the init overload
+	for(std::size_t k = 6; k < t.size(); ++k){
+		std::size_t eq = t[k].find('=');
+		if(eq == std::string::npos) throw std::runtime_error("bad-op");
+		c.o[t[k].substr(0, eq)] = t[k].substr(eq + 1);
+	}
 	Obj f; f.kind = 2; f.n = n;
 	RealVector x0(n, 0.0);
-	random::globalRng.seed(1);
-	std::unique_ptr<OptBase> o(make(c));
+	Holder hold(c); std::unique_ptr<OptBase>& o = hold.o;
+	seedRun(hold, 1, 0);
 	initOpt(c, *o, f, x0);
 	bool bad = false;
 	if(c.kind == "cma"){
@@ -380,8 +610,8 @@ static void coeffsOp(std::vector<std::string> const& t, std::ostringstream& out)
 
 // ---------------------------------------------------------------- per-step traces for the one-step refinement by the Lean models
 static void ecmaTrace(Config const& cfg, Obj& f, unsigned seed, std::size_t steps, RealVector const& x0, std::ostringstream& out){
-	random::globalRng.seed(seed);
-	std::unique_ptr<OptBase> ob(make(cfg)); ElitistCMA& m = static_cast<ElitistCMA&>(*ob);
+	Holder hold(cfg); ElitistCMA& m = static_cast<ElitistCMA&>(*hold.o);
+	seedRun(hold, seed, 1);
 	initOpt(cfg, m, f, x0);
 	out << "trace n=" << f.n << " active=" << (m.activeUpdate() ? 1 : 0);
 	auto state = [&](){
@@ -405,8 +635,8 @@ static void ecmaTrace(Config const& cfg, Obj& f, unsigned seed, std::size_t step
 }
 
 static void cmsaTrace(Config const& cfg, Obj& f, unsigned seed, std::size_t steps, RealVector const& x0, std::ostringstream& out){
-	random::globalRng.seed(seed);
-	std::unique_ptr<OptBase> ob(make(cfg)); CMSA& m = static_cast<CMSA&>(*ob);
+	Holder hold(cfg); CMSA& m = static_cast<CMSA&>(*hold.o);
+	seedRun(hold, seed, 1);
 	initOpt(cfg, m, f, x0);
 	out << "trace n=" << f.n << " lambda=" << m.lambda() << " mu=" << m.mu();
 	for(std::size_t s = 0; s != steps; ++s){
@@ -434,20 +664,18 @@ struct Recorder: public SingleObjectiveFunction{
 	std::size_t numberOfVariables() const{ return f.n; }
 	bool isFeasible(RealVector const& x) const{ return f.isFeasible(x); }
 	void closestFeasible(RealVector& x) const{ f.closestFeasible(x); }
+	void proposes(RealVector const& x0){ f.start = x0; m_features |= CAN_PROPOSE_STARTING_POINT; }
+	RealVector proposeStartingPoint() const{ return f.start; }
 	double eval(RealVector const& x) const{ double v = f.eval(x); xs.push_back(x); vs.push_back(v); return v; }
 };
 static void cemTrace(Config const& cfg, Obj& f, unsigned seed, std::size_t steps, RealVector const& x0, std::ostringstream& out){
-	random::globalRng.seed(seed);
-	CrossEntropyMethod m;
+	Holder hold(cfg); CrossEntropyMethod& m = static_cast<CrossEntropyMethod&>(*hold.o);
+	seedRun(hold, seed, 1);
 	Recorder rec(f);
-	{
-		std::size_t n = x0.size();
-		if(cfg.lambda()) m.init(rec, x0, (unsigned)cfg.lambda(), (unsigned)cfg.mu(), RealVector(n, cfg.sigma() > 0 ? cfg.sigma() : 100.0));
-		else m.init(rec, x0);
-	}
-	out << "trace n=" << f.n << " lambda=" << m.populationSize() << " mu=" << m.selectionSize();
+	initOpt(cfg, m, rec, x0);
+	out << "trace n=" << f.n << " lambda=" << m.populationSize() << " mu=" << m.selectionSize() << " noise=" << cfg.opt("noise", "none");
 	for(std::size_t s = 0; s != steps; ++s){
-		out << " | M=" << hexVec(m.mean()) << " V=" << hexVec(m.variance());
+		out << " | M=" << hexVec(m.mean()) << " V=" << hexVec(m.variance()) << " T=" << m.m_counter;
 		rec.xs.clear(); rec.vs.clear();
 		m.step(rec);
 		out << " F=";
@@ -458,9 +686,43 @@ static void cemTrace(Config const& cfg, Obj& f, unsigned seed, std::size_t steps
 	}
 }
 
-static void simplexRun(Obj& f, std::size_t steps, RealVector const& x0, std::ostringstream& out){
+// VDCMA::step, split exactly as the class does it (createSample, evaluation, selection, counter, updateStrategyParameters)
+static void vdcmaTrace(Config const& cfg, Obj& f, unsigned seed, std::size_t steps, RealVector const& x0, std::ostringstream& out){
+	Holder hold(cfg); VDCMA& m = static_cast<VDCMA&>(*hold.o);
+	seedRun(hold, seed, 1);
+	initOpt(cfg, m, f, x0);
+	typedef Individual<RealVector, double, RealVector> Ind;
+	out << "trace n=" << f.n << " lambda=" << m.m_lambda << " mu=" << m.m_mu;
+	auto state = [&](){
+		std::ostringstream os;
+		os << " M=" << hexVec(m.m_mean) << " PC=" << hexVec(m.m_evolutionPathC) << " PS=" << hexVec(m.m_evolutionPathSigma)
+		   << " D=" << hexVec(m.m_D) << " VN=" << hexVec(m.m_vn) << " NV=" << hexd(m.m_normv);
+		return os.str();
+	};
+	for(std::size_t s = 0; s != steps; ++s){
+		std::vector<Ind> off(m.m_lambda);
+		PenalizingEvaluator ev;
+		for(std::size_t i = 0; i != off.size(); ++i) m.createSample(off[i].searchPoint(), off[i].chromosome());
+		ev(f, off.begin(), off.end());
+		out << " | S=" << hexd(m.m_sigma) << "," << m.m_counter << state() << " F=";
+		for(std::size_t i = 0; i != off.size(); ++i){ if(i) out << ","; out << hexd(off[i].unpenalizedFitness()); }
+		out << " X=";
+		for(std::size_t i = 0; i != off.size(); ++i){ if(i) out << ","; out << hexVec(off[i].searchPoint()); }
+		out << " Y=";
+		for(std::size_t i = 0; i != off.size(); ++i){ if(i) out << ","; out << hexVec(off[i].chromosome()); }
+		std::vector<Ind> parents(m.m_mu);
+		ElitistSelection<Ind::FitnessOrdering> selection;
+		selection(off.begin(), off.end(), parents.begin(), parents.end());
+		m.m_counter++;
+		m.updateStrategyParameters(parents);
+		// (m_best is protected in the base class, which is included before the access hack: the reported pair is what step() assigns)
+		out << " > S=" << hexd(m.m_sigma) << state() << " BP=" << hexVec(parents[0].searchPoint()) << " BV=" << hexd(parents[0].unpenalizedFitness());
+	}
+}
+
+static void simplexRun(Config const& cfg, Obj& f, std::size_t steps, RealVector const& x0, std::ostringstream& out){
 	SimplexDownhill m;
-	m.init(f, x0);
+	callInit(m, f, x0, cfg.kind == "simplex" ? cfg.initMode() : "point");
 	auto state = [&](){
 		std::ostringstream os;
 		os << "BP=" << hexVec(m.solution().point) << " BV=" << hexd(m.solution().value) << " SX=";
@@ -501,9 +763,17 @@ int main(){
 				for(std::size_t k = 0; k != n; ++k){ l(k) = bits2d(t[1+k]); u(k) = bits2d(t[1+n+k]); }
 				if(t[0] == "box") f->setBox(l, u); else f->setSoftBox(l, u);
 				out << "ok";
+			}else if(t[0] == "scale"){
+				f->scale = bits2d(t.at(1));
+				if(!(f->scale > 0) || !std::isfinite(f->scale)) throw std::runtime_error("bad-op");
+				out << "ok";
 			}else if(t[0] == "opt"){
-				cfg.kind = t.at(1); cfg.p.clear();
-				for(std::size_t k = 2; k < t.size(); ++k) cfg.p.push_back(bits2d(t[k]));
+				cfg.kind = t.at(1); cfg.p.clear(); cfg.o.clear();
+				for(std::size_t k = 2; k < t.size(); ++k){
+					std::size_t eq = t[k].find('=');
+					if(eq == std::string::npos) cfg.p.push_back(bits2d(t[k]));
+					else cfg.o[t[k].substr(0, eq)] = t[k].substr(eq + 1);
+				}
 				out << "ok";
 			}else if(t[0] == "run"){
 				unsigned seed = (unsigned)std::stoul(t.at(1)); std::size_t steps = std::stoul(t.at(2));
@@ -511,53 +781,68 @@ int main(){
 				if(t.size() != 4 + f->n) throw std::runtime_error("bad-op");
 				RealVector x0(f->n);
 				for(std::size_t k = 0; k != f->n; ++k) x0(k) = bits2d(t[4+k]);
-				std::unique_ptr<OptBase> o1(make(cfg)), o2(make(cfg));
-				Trace a = runOnce(cfg, *o1, *f, 0, seed, steps, x0);
-				Trace b = runOnce(cfg, *o2, *f, 0, seed, steps, x0);
-				Trace r = runOnce(cfg, *o1, *f, 0, seed, steps, x0);    // the object used for run a, initialised again
+				Holder h1(cfg, 0x00), h2(cfg, 0xFF), h4(cfg, 0xA5);
+				Trace a = runOnce(cfg, h1, *f, 0, seed, 1, steps, x0);
+				Trace b = runOnce(cfg, h2, *f, 0, seed, 2, steps, x0);
+				Trace r = runOnce(cfg, h1, *f, 0, seed, 3, steps, x0);    // the object used for run a, initialised again
+				preUse(cfg, h4, f->n, seed);
+				Trace u = runOnce(cfg, h4, *f, 0, seed, 4, steps, x0);    // an object used on another problem before
 				out << "final pt=" << showVec(a.pts.back()) << " val=" << vh::exactDouble(a.vals.back())
 				    << " sigma=" << vh::exactDouble(a.sig.back()) << " digest=" << digest(a);
+				if(a.pdUndecided) out << " pd-undecided=" << a.pdUndecided << " last-pivot=" << g_lastPivot << " of=" << g_lastDiag;
 				if(!a.bad.empty()) out << " !oracle " << a.bad;
-				if(digest(a) != digest(b)) out << " !oracle same-seed-different-run";
+				else if(!b.bad.empty()) out << " !oracle " << b.bad << " run=second";
+				else if(!r.bad.empty()) out << " !oracle " << r.bad << " run=reinitialised";
+				else if(!u.bad.empty()) out << " !oracle " << u.bad << " run=reused";
+				if(digest(a) != digest(b)) out << " !oracle same-seed-different-run" << (h1.priv ? ":private-generator" : "");
 				if(digest(a) != digest(r)) out << " !oracle reinitialised-object-different-run";
-				for(int phi = 1; phi <= 3; ++phi){
-					std::unique_ptr<OptBase> o3(make(cfg));
-					Trace c = runOnce(cfg, *o3, *f, phi, seed, steps, x0);
+				if(digest(a) != digest(u)) out << " !oracle reused-object-different-run";
+				for(int phi = 1; phi <= 4; ++phi){
+					// ElitistCMA with a feasibility box ranks by f + penalty, which is not order-equivalent to phi(f) + penalty
+					if(cfg.kind == "ecma" && f->soft) break;
+					Holder h3(cfg, (unsigned char)(0x5A + 0x11 * phi));
+					Trace c = runOnce(cfg, h3, *f, phi, seed, 4 + phi, steps, x0);
 					bool same = c.pts.size() == a.pts.size();
+					// 2^340 v is exact as long as it does not overflow
+					bool representable = true;
+					for(std::size_t s = 0; phi == 4 && s != a.vals.size(); ++s) representable = representable && std::fabs(a.vals[s]) < 1e150;
+					if(!representable) continue;
 					// the rescalings are exact (and hence exactly order preserving) only away from underflow:
 					// the comparison stops once a reported value drops below 1e-200 in modulus
 					for(std::size_t s = 0; same && s != a.pts.size(); ++s){
 						if(std::fabs(a.vals[s]) < 1e-200 && a.vals[s] != 0) break;
 						same = sameVec(a.pts[s], c.pts[s]) && sameBits(a.sig[s], c.sig[s]);
 					}
-					if(!same){ out << " !oracle not-rank-invariant phi=" << phi; break; }
+					if(!c.bad.empty() && a.bad.empty()) out << " !oracle " << c.bad << " run=rescaled" << phi;
+					if(!same){ out << " !oracle not-rank-invariant" << (phi == 4 ? "-at-huge-values" : "") << " phi=" << phi; break; }
 				}
 				if(std::isfinite(target) && !(a.vals.back() <= target)) out << " !oracle not-converged " << a.vals.back();
 			}else if(t[0] == "coeffs"){
 				coeffsOp(t, out);
-			}else if(t[0] == "ecmatrace" || t[0] == "cmsatrace" || t[0] == "cemtrace"){
+			}else if(t[0] == "ecmatrace" || t[0] == "cmsatrace" || t[0] == "cemtrace" || t[0] == "vdcmatrace"){
 				unsigned seed = (unsigned)std::stoul(t.at(1)); std::size_t steps = std::stoul(t.at(2));
 				if(t.size() != 3 + f->n) throw std::runtime_error("bad-op");
 				RealVector x0(f->n);
 				for(std::size_t k = 0; k != f->n; ++k) x0(k) = bits2d(t[3+k]);
 				if(t[0] == "ecmatrace") ecmaTrace(cfg, *f, seed, steps, x0, out);
 				else if(t[0] == "cmsatrace") cmsaTrace(cfg, *f, seed, steps, x0, out);
+				else if(t[0] == "vdcmatrace") vdcmaTrace(cfg, *f, seed, steps, x0, out);
 				else cemTrace(cfg, *f, seed, steps, x0, out);
 			}else if(t[0] == "simplexrun"){
 				std::size_t steps = std::stoul(t.at(1));
 				if(t.size() != 2 + f->n) throw std::runtime_error("bad-op");
 				RealVector x0(f->n);
 				for(std::size_t k = 0; k != f->n; ++k) x0(k) = bits2d(t[2+k]);
-				simplexRun(*f, steps, x0, out);
+				simplexRun(cfg, *f, steps, x0, out);
 			}else if(t[0] == "cmatrace"){
 				unsigned seed = (unsigned)std::stoul(t.at(1)); std::size_t steps = std::stoul(t.at(2));
 				if(t.size() != 3 + f->n) throw std::runtime_error("bad-op");
 				RealVector x0(f->n);
 				for(std::size_t k = 0; k != f->n; ++k) x0(k) = bits2d(t[3+k]);
-				random::globalRng.seed(seed);
-				std::unique_ptr<OptBase> ob(make(cfg)); CMA& cma = static_cast<CMA&>(*ob);
+				Holder hold(cfg); CMA& cma = static_cast<CMA&>(*hold.o);
+				seedRun(hold, seed, 1);
 				initOpt(cfg, cma, *f, x0);
-				out << "trace n=" << f->n << " lambda=" << cma.m_lambda << " mu=" << cma.m_mu << " rec=" << (int)cma.m_recombinationType;
+				out << "trace n=" << f->n << " lambda=" << cma.m_lambda << " mu=" << cma.m_mu << " rec=" << (int)cma.m_recombinationType << " lb=" << hexd(cma.m_lowerBound);
 				for(std::size_t s = 0; s != steps; ++s){
 					// one step, split exactly as CMA::step does for a noise-free function
 					std::vector<CMA::IndividualType> off = cma.generateOffspring();
